@@ -53,7 +53,7 @@ def order_mc(ctx: Ctx, wd, max_steps: int, pres: str, designs: str, name: str):
         "Emit": 'Finished => PrintT("@@J@@" \\o ToJson([script |-> script, design |-> design, em |-> em, rv |-> rv]))'},
         extends="TLC, Json")
     cfg = render_cfg(constants={"MaxSteps": max_steps, "Pres": Raw(pres),
-                                "Designs": Raw(designs)}, invariants=ORDER_INVS + ["Emit"])
+                                "Designs": Raw(designs), "FullHeaderGrid": max_steps <= 2}, invariants=ORDER_INVS + ["Emit"])
     r = run_tlc(wd, "MC_LogOrder", cfg, timeout=1500, cfg_name=f"lo_{max_steps}.cfg")
     ctx.add_tlc(name, r)
     return r
